@@ -9,8 +9,12 @@ From Coq Require Import List Bool Arith.
 Import ListNotations.
 From PV Require Import Model.Workflow gen.Workflow_gen Proofs.WorkflowProofs.
 
-(* the generated seed / record-key facts are the ones the theorems need *)
-Theorem gen_seed_and_key_facts : c_seed_wf gen_cfg = true /\ c_task_key_call gen_cfg = true.
+(* the generated facts are the ones the theorems need: seeds contain the workflow id, the sub-task record key
+   contains the call identity, the replay branch of execute_task hands the recorded invocation back
+   unconditionally, the value generators keep no state outside their own call *)
+Theorem gen_seed_and_key_facts :
+  c_seed_wf gen_cfg = true /\ c_task_key_call gen_cfg = true /\
+  c_replay_uncond gen_cfg = true /\ c_gen_private gen_cfg = true.
 Proof. exact gen_facts_good. Qed.
 Print Assumptions gen_seed_and_key_facts.
 
@@ -37,17 +41,24 @@ Print Assumptions workflows_do_not_mix.
 Theorem returned_values_are_own : forall evs e w o v,
   wf_of (run fixed_cfg evs) e = Some w -> In (e, o, v) (outs (run fixed_cfg evs)) ->
   owned (run fixed_cfg evs) w v.
-Proof. exact (values_owned_lemma fixed_cfg eq_refl (proj1 gen_facts_good)). Qed.
+Proof.
+  exact (values_owned_lemma fixed_cfg eq_refl (proj1 (proj2 (proj2 gen_facts_good)))
+           (proj2 (proj2 (proj2 gen_facts_good))) (proj1 gen_facts_good)).
+Qed.
 Print Assumptions returned_values_are_own.
 
 Theorem records_are_own : forall evs w k n v,
   slookup (w, KOp k n) (store (run fixed_cfg evs)) = Some v -> owned (run fixed_cfg evs) w v.
-Proof. exact (records_owned_lemma fixed_cfg eq_refl (proj1 gen_facts_good)). Qed.
+Proof.
+  exact (records_owned_lemma fixed_cfg eq_refl (proj1 (proj2 (proj2 gen_facts_good)))
+           (proj2 (proj2 (proj2 gen_facts_good))) (proj1 gen_facts_good)).
+Qed.
 Print Assumptions records_are_own.
 
 (* C18 at full strength, for any configuration with these facts *)
 Theorem c18_per_execution : forall c,
-  c_scope c = PerExecution -> c_seed_wf c = true -> c_task_key_call c = true -> C18_statement c.
+  c_scope c = PerExecution -> c_seed_wf c = true -> c_task_key_call c = true ->
+  c_replay_uncond c = true -> c_gen_private c = true -> C18_statement c.
 Proof. exact per_execution_satisfies. Qed.
 Print Assumptions c18_per_execution.
 
@@ -57,6 +68,22 @@ Theorem cached_executor_refuted :
   ~ nth_value_stable_stmt cached_cfg /\ ~ sub_task_once_stmt cached_cfg /\ ~ no_mix_stmt cached_cfg.
 Proof. exact cached_cfg_refuted. Qed.
 Print Assumptions cached_executor_refuted.
+
+(* a replay branch of execute_task that depends on anything but the record (e.g. on the state of the recorded
+   invocation) launches an identical call again once that state changes (computed witness: the recorded
+   sub-invocation fails, the body is re-executed) *)
+Theorem guarded_subtask_replay_refuted : ~ sub_task_once_stmt guarded_cfg.
+Proof. exact guarded_replay_refuted. Qed.
+Print Assumptions guarded_subtask_replay_refuted.
+
+(* a value generator that goes through process-wide state hands a workflow the value prepared for another
+   workflow of the same process image when it is pre-empted inside the helper call (computed witness) *)
+Theorem shared_value_generator_refuted :
+  ~ no_mix_stmt shared_gen_cfg /\
+  ~ (forall evs e w o v, wf_of (run shared_gen_cfg evs) e = Some w ->
+       In (e, o, v) (outs (run shared_gen_cfg evs)) -> owned (run shared_gen_cfg evs) w v).
+Proof. exact shared_generator_refuted. Qed.
+Print Assumptions shared_value_generator_refuted.
 
 (* hence, with the generated seed/key facts, C18 holds exactly when the executor is per execution;
    in particular for the scope the current source implements *)
@@ -69,9 +96,11 @@ Proof. exact current_source_iff. Qed.
 Print Assumptions c18_current_source.
 
 (* non-vacuity: retry after two operations, replay in another process image, interleaved with a
-   second workflow — the replay returns the recorded values and launches nothing new *)
+   second workflow, which is pre-empted inside a helper call, and with the failure of the recorded
+   sub-invocation — the replay returns the recorded values and launches nothing new *)
 Example c18_nonvacuous :
-  let evs := [EBegin 0 0 0 1; EOp 0 (ODet Rnd); EBegin 1 0 0 2; EOp 0 (OExec 7); EOp 1 (ODet Rnd);
+  let evs := [EBegin 0 0 0 1; EOp 0 (ODet Rnd); EBegin 1 0 0 2; EOp 0 (OExec 7); ESeed 1 Rnd; EChild 1 7;
+              EOp 1 (ODet Rnd);
               EBegin 2 1 0 1; EOp 2 (ODet Rnd); EOp 1 (OExec 7); EOp 2 (OExec 7); EOp 2 (ODet Tim)] in
   map (fun x => snd x) (outs (run fixed_cfg evs))
     = [VRand 1 (1 + c_seq_offset gen_cfg); VInv 0; VRand 2 (1 + c_seq_offset gen_cfg);
